@@ -35,9 +35,9 @@
     confirmed on the implementation): [full_checkpoint_window_refuted],
     [full_checkpoint_post_pragma_window_refuted],
     [full_checkpoint_post_copy_window_refuted].
-    This file states it for one session (no Close, no kill: [session_label]);
-    Close / Open / kill and new processes (F2) are Properties/C04.v
-    ([acked_sync_restores_sessions]). *)
+    This file states it for histories with any number of Close / Open but
+    without the death of the process and without the error exit of the bump
+    ([nokill_label]); kill is Properties/C04.v ([acked_sync_restores_sessions]). *)
 From Coq Require Import List NArith Bool.
 From LS Require Import Db.Image.
 Import ListNotations.
@@ -115,19 +115,19 @@ From LS Require Import Db.Machine Db.MachineProofs.
     The three booleans of [step]/[run]/[steps_ok] select the control flow of
     checkpointWithExecutor: [midcheck] = /repo commit 80a5b27 (header re-read
     after a FULL/RESTART PRAGMA), [postcopy] = 6edd82b (copy after that re-read),
-    [recheck] = bb88a29 (header re-read after that copy); the fourth,
-    [freshrule] = 3b58009, matters only across sessions (Properties/C04.v).
-    [true true true true] is /repo HEAD.  [session_label] excludes the labels
-    [LsClose] and [LsKill]. *)
+    [recheck] = bb88a29 (header re-read after that copy); the fourth and
+    fifth, [freshrule] = 3b58009 and [reachrule] = c55c7c6, matter only across
+    sessions (Properties/C04.v).  All five [true] is /repo HEAD.
+    [nokill_label] excludes the labels [LsKill] and [LsBumpFail]. *)
 Theorem acked_sync_restores :
   forall (data : Type) (zero : data) (lock : N) (s0 : state data) (ls : list (label data)) (s : state data),
   init_ok data zero lock s0 ->
-  run data lock true true true true s0 ls = Some s ->
-  steps_ok data lock true true true true s0 ls ->
-  forallb (session_label data) ls = true ->
+  run data lock true true true true true s0 ls = Some s ->
+  steps_ok data lock true true true true true s0 ls ->
+  forallb (nokill_label data) ls = true ->
   forall n im b, In (n, im, b) (acks data s) ->
   img_eq data (restore data zero lock (firstn n (l0 data s))) im.
-Proof. exact MachineProofs.acked_sync_restores_one_session. Qed.
+Proof. exact MachineProofs.acked_sync_restores_nokill. Qed.
 Print Assumptions acked_sync_restores.
 
 (** with the re-read of bb88a29 the one of 80a5b27 is not needed for C01 (it
@@ -135,17 +135,17 @@ Print Assumptions acked_sync_restores.
 Theorem acked_sync_restores_first_read_redundant :
   forall (data : Type) (zero : data) (lock : N) (s0 : state data) (ls : list (label data)) (s : state data),
   init_ok data zero lock s0 ->
-  run data lock false true true true s0 ls = Some s ->
-  steps_ok data lock false true true true s0 ls ->
-  forallb (session_label data) ls = true ->
+  run data lock false true true true true s0 ls = Some s ->
+  steps_ok data lock false true true true true s0 ls ->
+  forallb (nokill_label data) ls = true ->
   forall n im b, In (n, im, b) (acks data s) ->
   img_eq data (restore data zero lock (firstn n (l0 data s))) im.
 Proof. exact MachineProofs.acked_sync_restores_first_read_redundant. Qed.
 Print Assumptions acked_sync_restores_first_read_redundant.
 
 Theorem ack_records_committed :
-  forall (data : Type) (lock : N) (midcheck postcopy recheck freshrule : bool) (s s' : state data),
-  step data lock midcheck postcopy recheck freshrule s (LsAck data) = Some s' ->
+  forall (data : Type) (lock : N) (midcheck postcopy recheck freshrule reachrule : bool) (s s' : state data),
+  step data lock midcheck postcopy recheck freshrule reachrule s (LsAck data) = Some s' ->
   exists b, acks data s' = (length (l0 data s), committed data s, b) :: acks data s /\
             l0 data s' = l0 data s /\ cgen data s = gen data s /\
             cfo data s = flen data (txs data s).
@@ -155,11 +155,11 @@ Print Assumptions ack_records_committed.
 (** any control flow: acknowledgements taken while no generation was reset
     under unreplicated transactions *)
 Theorem acked_sync_restores_unless_lost :
-  forall (data : Type) (zero : data) (lock : N) (midcheck postcopy recheck freshrule : bool)
+  forall (data : Type) (zero : data) (lock : N) (midcheck postcopy recheck freshrule reachrule : bool)
          (s0 : state data) (ls : list (label data)) (s : state data),
   init_ok data zero lock s0 ->
-  run data lock midcheck postcopy recheck freshrule s0 ls = Some s ->
-  steps_ok data lock midcheck postcopy recheck freshrule s0 ls ->
+  run data lock midcheck postcopy recheck freshrule reachrule s0 ls = Some s ->
+  steps_ok data lock midcheck postcopy recheck freshrule reachrule s0 ls ->
   forall n im, In (n, im, true) (acks data s) ->
   img_eq data (restore data zero lock (firstn n (l0 data s))) im.
 Proof. exact MachineProofs.acked_sync_restores_unless_lost. Qed.
@@ -167,10 +167,10 @@ Print Assumptions acked_sync_restores_unless_lost.
 
 (** DInv (1)+(2) at every reachable state *)
 Theorem dinv_reachable :
-  forall (data : Type) (zero : data) (lock : N) (midcheck postcopy recheck freshrule : bool)
+  forall (data : Type) (zero : data) (lock : N) (midcheck postcopy recheck freshrule reachrule : bool)
          (s0 : state data) (ls : list (label data)) (s : state data),
-  init_ok data zero lock s0 -> run data lock midcheck postcopy recheck freshrule s0 ls = Some s ->
-  steps_ok data lock midcheck postcopy recheck freshrule s0 ls ->
+  init_ok data zero lock s0 -> run data lock midcheck postcopy recheck freshrule reachrule s0 ls = Some s ->
+  steps_ok data lock midcheck postcopy recheck freshrule reachrule s0 ls ->
   match cur data s with
   | AtLive c =>
       cgen data s = gen data s /\ cfo data s = flen data (firstn c (txs data s)) /\
@@ -188,9 +188,9 @@ Print Assumptions dinv_reachable.
     snapshot *)
 Theorem pinned_never_lost :
   forall (data : Type) (zero : data) (lock : N) (s0 : state data) (ls : list (label data)) (s : state data),
-  init_ok data zero lock s0 -> run data lock true true true true s0 ls = Some s ->
-  steps_ok data lock true true true true s0 ls ->
-  steps_window data lock true true true true s0 ls ->
+  init_ok data zero lock s0 -> run data lock true true true true true s0 ls = Some s ->
+  steps_ok data lock true true true true true s0 ls ->
+  steps_window data lock true true true true true s0 ls ->
   cur data s = Lost ->
   l0 data s = [] \/ MachineSafe.pendingb (pc data s) = true \/ MachineSafe.freshlostb data s = true \/
   MachineSafe.lost_okb true (pc data s) (gen data s) = true.
@@ -200,9 +200,9 @@ Qed.
 Print Assumptions pinned_never_lost.
 
 Theorem verify_sound_pinned :
-  forall (data : Type) (zero : data) (lock : N) (freshrule : bool) (s : state data) (k : nat),
+  forall (data : Type) (zero : data) (lock : N) (freshrule reachrule : bool) (s : state data) (k : nat),
   MachineInv.inv data zero lock s -> cur data s <> Lost ->
-  match verify data freshrule s with
+  match verify data freshrule reachrule s with
   | VSnap => True
   | VIncrAt => exists c, cur data s = AtLive c /\ idx data (txs data s) (cfo data s) = Some c /\
                          MachineProofs.continuity data zero lock s c k
@@ -214,8 +214,8 @@ Print Assumptions verify_sound_pinned.
 (** F14, repaired by 80a5b27: the control flow before it (scenarios ckpt-window:FULL|RESTART) *)
 Theorem full_checkpoint_window_refuted :
   exists (s0 : state N) ls s n im b,
-    init_ok N 0%N 1000%N s0 /\ run N 1000%N false false false true s0 ls = Some s /\
-    steps_ok N 1000%N false false false true s0 ls /\
+    init_ok N 0%N 1000%N s0 /\ run N 1000%N false false false true true s0 ls = Some s /\
+    steps_ok N 1000%N false false false true true s0 ls /\
     In (n, im, b) (acks N s) /\
     ~ img_eq N (restore N 0%N 1000%N (firstn n (l0 N s))) im.
 Proof. exact MachineProofs.full_checkpoint_window_refuted. Qed.
@@ -224,8 +224,8 @@ Print Assumptions full_checkpoint_window_refuted.
 (** F15, repaired by 6edd82b (scenarios ckpt-post-pragma-window:FULL|RESTART) *)
 Theorem full_checkpoint_post_pragma_window_refuted :
   exists (s0 : state N) ls s n im b,
-    init_ok N 0%N 1000%N s0 /\ run N 1000%N true false false true s0 ls = Some s /\
-    steps_ok N 1000%N true false false true s0 ls /\
+    init_ok N 0%N 1000%N s0 /\ run N 1000%N true false false true true s0 ls = Some s /\
+    steps_ok N 1000%N true false false true true s0 ls /\
     In (n, im, b) (acks N s) /\
     ~ img_eq N (restore N 0%N 1000%N (firstn n (l0 N s))) im.
 Proof. exact MachineProofs.full_checkpoint_post_pragma_window_refuted. Qed.
@@ -234,8 +234,8 @@ Print Assumptions full_checkpoint_post_pragma_window_refuted.
 (** F16, repaired by bb88a29 (scenarios ckpt-post-copy-window:FULL|RESTART) *)
 Theorem full_checkpoint_post_copy_window_refuted :
   exists (s0 : state N) ls s n im b,
-    init_ok N 0%N 1000%N s0 /\ run N 1000%N true true false true s0 ls = Some s /\
-    steps_ok N 1000%N true true false true s0 ls /\
+    init_ok N 0%N 1000%N s0 /\ run N 1000%N true true false true true s0 ls = Some s /\
+    steps_ok N 1000%N true true false true true s0 ls /\
     In (n, im, b) (acks N s) /\
     ~ img_eq N (restore N 0%N 1000%N (firstn n (l0 N s))) im.
 Proof. exact MachineProofs.full_checkpoint_post_copy_window_refuted. Qed.
@@ -245,17 +245,17 @@ Print Assumptions full_checkpoint_post_copy_window_refuted.
     application commit before the barrier), [ex2_run] (TRUNCATE), [fixed_run],
     [fixed2_run], [fixed3_run] (the F14, F15, F16 histories, FULL, under /repo HEAD) *)
 Example machine_example :
-  forall s, run N 1000%N true true true true ex_init ex_steps = Some s ->
+  forall s, run N 1000%N true true true true true ex_init ex_steps = Some s ->
   forall n im b, In (n, im, b) (acks N s) ->
   img_eq N (restore N 0%N 1000%N (firstn n (l0 N s))) im.
 Proof.
-  intros s E. eapply MachineProofs.acked_sync_restores_one_session; [exact ex_init_ok|exact E|exact ex_steps_ok|reflexivity].
+  intros s E. eapply MachineProofs.acked_sync_restores_nokill; [exact ex_init_ok|exact E|exact ex_steps_ok|reflexivity].
 Qed.
 
 Example machine_example_full :
-  forall s, run N 1000%N true true true true ex_init fixed3_steps = Some s ->
+  forall s, run N 1000%N true true true true true ex_init fixed3_steps = Some s ->
   forall n im b, In (n, im, b) (acks N s) ->
   img_eq N (restore N 0%N 1000%N (firstn n (l0 N s))) im.
 Proof.
-  intros s E. eapply MachineProofs.acked_sync_restores_one_session; [exact ex_init_ok|exact E|exact fixed3_steps_ok|reflexivity].
+  intros s E. eapply MachineProofs.acked_sync_restores_nokill; [exact ex_init_ok|exact E|exact fixed3_steps_ok|reflexivity].
 Qed.
